@@ -45,10 +45,12 @@ def takeHex : List Char → List Char → Option (Bytes × List Char)
 
 def allDigits (l : List Char) : Bool := !l.isEmpty && l.all (fun c => '0' ≤ c && c ≤ '9')
 
-def expTokens : List String := ["1e+21", "1e-7", "-2.5e+30", "1.5e-9"]
+/-- no exponent-form numbers in the protocol (as an `@id` value — which any PATCH can make of
+    them — they are outside the model's domain, see `Model.memberBreaks`) -/
+def expTokens : List String := []
 
 /-- the number texts both sides accept: plain decimals that `json.Marshal` prints unchanged
-    (≤ 15 significant digits, 1e-6 ≤ |x| < 1e15 or 0, no "-0"), plus four exponent tokens -/
+    (≤ 15 significant digits, 1e-6 ≤ |x| < 1e15 or 0, no "-0") -/
 def canonicalNum (s : List Char) : Bool :=
   if expTokens.contains (String.ofList s) then true else
   let u := if s.head? = some '-' then s.drop 1 else s
@@ -66,12 +68,17 @@ def asciiOnly (b : Bytes) : Bool := b.all (· < 128)
 def lower (b : Bytes) : Bytes := b.map fun c => if 65 ≤ c && c ≤ 90 then c + 32 else c
 
 /-- names the harness world must not meet: other top-level `Config` fields (matched
-    case-insensitively by encoding/json), and `..` path components (index entries would leave
-    /config/) -/
+    case-insensitively by encoding/json), `..` path components (index entries would leave
+    /config/), keys containing `"@id` (not modelled, see `Model.memberBreaks`) -/
+def hasInfix (pat : Bytes) : Bytes → Bool
+  | [] => pat.isEmpty
+  | c :: r => pat.isPrefixOf (c :: r) || hasInfix pat r
+
 def forbiddenName (k : Bytes) : Bool :=
   [str "admin", str "logging", str "storage"].contains (lower k) ||
   (lower k == str "apps" && k != str "apps") ||
-  (splitSlash k).contains dotdot
+  (splitSlash k).contains dotdot ||
+  hasInfix [34, 64, 105, 100] k        -- `"@id` inside a key: the textual idRegexp fires there too
 
 mutual
 partial def parseTree : List Char → Option (Json × List Char)
